@@ -4,6 +4,7 @@ MC_TabCols == [t1 |-> <<"g", "o", "x">>, t2 |-> <<"g", "y">>]
 MC_ColVals == [g |-> {NULL, 0, 1}, o |-> {0, 1, 2}, x |-> {NULL, 0, 1, 2}, y |-> {NULL, 1}]
 MC_Kind == [g |-> "s", h |-> "s", h2 |-> "s", src |-> "s",
             p |-> "b", q |-> "b", o |-> "n", k |-> "n", x |-> "n", y |-> "n", z |-> "n", w |-> "n", x2 |-> "n", nosuch |-> "n"]
+MC1_TabCols == [t1 |-> <<"g", "o", "x">>]
 SIM_TabCols == [t1 |-> <<"g", "o", "x", "y">>, t2 |-> <<"g", "k", "y">>]
 SIM_ColVals == [g |-> {NULL, 0, 1}, o |-> {0, 1, 2, 3}, x |-> {NULL, 0, 1, 2}, y |-> {NULL, 0 - 1, 1, 3},
                 k |-> {NULL, 0, 1, 2}]
@@ -12,6 +13,6 @@ NoDevOf == [b \in {} |-> {}]
 AllBackends == {"pandas", "sqlite", "polars"}
 AllDevOf == [b \in AllBackends |->
                CASE b = "pandas" -> {"pandas_drops_null_groups", "pandas_cum_null_hole", "null_cmp_false", "pandas_null_keys_match"}
-                 [] b = "sqlite" -> {"sql_maxmin_swapped"}
+                 [] b = "sqlite" -> {"sql_maxmin_swapped", "sqlite_full_join_emulation"}
                  [] b = "polars" -> {"polars_full_join_right_key_lost", "polars_maxmin_ignore_null"}]
 =============================================================================
